@@ -46,6 +46,15 @@ FLAVOURS = {
     "srp": dict(flavour="srp", cred=None),
     "srpcert": dict(flavour="srpcert", cred="rsa"),
     "anon": dict(flavour="anon", cred=None),
+    # finite-field anonymous DH only (the default prefers ECDH_anon)
+    "anon-dh": dict(flavour="anon", cred=None,
+                    base=(("keyExchangeNames", ("dh_anon", ["dh_anon"],
+                                                True)),
+                          ("maxVersion", ("tls12", (3, 3), True)))),
+    "dhe-rsa": dict(flavour="cert", cred="rsa",
+                    base=(("keyExchangeNames", ("dhe_rsa", ["dhe_rsa"],
+                                                True)),
+                          ("maxVersion", ("tls12", (3, 3), True)))),
     "psk": dict(flavour="psk", cred="rsa"),
     "psk-only": dict(flavour="psk", cred=None),
     "rsa-npn": dict(flavour="cert", cred="rsa",
@@ -158,6 +167,13 @@ def policy_fails(who, st, conn, peer_cred, info, version, selected_alpn,
 def _work(item):
     fname, cch, sch, seed = item
     fl = FLAVOURS[fname]
+    base = tuple(fl.get("base", ()))
+    # the flavour's own restrictions come first; an explicit change of the
+    # same dimension overrides them
+    cch = tuple(b for b in base if b[0] not in [c[0] for c in cch]) + \
+        tuple(cch)
+    sch = tuple(b for b in base if b[0] not in [c[0] for c in sch]) + \
+        tuple(sch)
     try:
         cst_v = c19.build(cch).validate()
         sst_v = c19.build(sch).validate()
